@@ -185,7 +185,7 @@ def judge_iter(ctx, mid, case, clause='cumulative seconds == tempo-map integral'
     return got, model
 
 
-PATTERNS = ('none', 'small', 'bigger-than-next', 'bursty', 'huge-once', 'random')
+PATTERNS = ('none', 'small', 'bigger-than-next', 'bursty', 'huge-once', 'random', 'clock-steps-back')
 
 
 def consumer_delay(pattern, i, rng, typical):
@@ -199,6 +199,9 @@ def consumer_delay(pattern, i, rng, typical):
         return typical * 10 if i % 7 == 3 else 0.0
     if pattern == 'huge-once':
         return typical * 1000 if i == 2 else 0.0
+    if pattern == 'clock-steps-back':
+        # the supplied clock is set back (NTP, a user fixing the date) to before the start of playback, twice
+        return -(1000.0 + typical * 100) if i in (2, 5) else typical * 0.5
     return rng.choice((0.0, typical * 0.5, typical * 2, typical * 20))
 
 
